@@ -269,7 +269,6 @@ inductive Err where
   | noIndex
   | tooNested          -- "too many nested @iterator calls" (`make_iterator`'s nesting limit)
   | notReversible      -- `iterator.reversed`: "the provided iterator isn't bidirectional"
-  | display            -- "failed to get display value"
   | diverge            -- the operation would not terminate (never generated)
   deriving DecidableEq, Repr, Inhabited
 
@@ -1097,25 +1096,14 @@ def display : Opd → Out
   | .host h =>
     match h.impl.lookup .display with
     | some (.ret _) => ⟨[⟨h.name, .host .display, h.av, []⟩], .ok .str⟩
-    | some _ => ⟨[⟨h.name, .host .display, h.av, []⟩], .err .display⟩
+    | some _ => ⟨[⟨h.name, .host .display, h.av, []⟩], .err .hostErr⟩   -- the method's error, unchanged
     | Option.none => ⟨[], .ok .builtin⟩      -- default: the type string
 
-/-- rendering inside a container or through the `@debug` fallback: any failure of `@display`
-becomes "failed to get display value" -/
-def displayNested : Opd → Out
-  | .prim _ => ⟨[], .ok .builtin⟩
-  | .map m =>
-    match m.metaGet .Display with
-    | some (tag, mv) =>
-      match invoke tag .Display mv m.av [] with
-      | (t, .ret .str) => ⟨t, .ok .str⟩
-      | (t, _) => ⟨t, .err .display⟩
-    | Option.none => ⟨[], .ok (.shown (metaType m.layers))⟩
-  | .host h =>
-    match h.impl.lookup .display with
-    | some (.ret _) => ⟨[⟨h.name, .host .display, h.av, []⟩], .ok .str⟩
-    | some _ => ⟨[⟨h.name, .host .display, h.av, []⟩], .err .display⟩
-    | Option.none => ⟨[], .ok .builtin⟩
+/-- rendering inside a container (`'{[x]}'`) or through the `@debug` fallback: the element is
+rendered exactly as when it is displayed directly, and an error of its `@display` (a thrown value, a
+non-String result, …) reaches the script unchanged — same class and value (/repo 9cbdb4e; before it
+was replaced by "failed to get display value") -/
+def displayNested (o : Opd) : Out := display o
 
 /-- `'{x:?}'`: `@debug`, else the display path (with `@display` as fallback) -/
 def debug : Opd → Out
